@@ -93,6 +93,7 @@ Verdict(e) ==
         TagOk(t) == LET i == IdxOfX[t.cx] p == P[i] IN
             /\ t.SM = SM(i) /\ t.RX = p.umi /\ t.BC = BcChars(cellOf[i]) /\ t.bcr = Raw(p) /\ t.bi = ToString(cellOf[i])
             /\ t.LY = lib.name /\ t.La = ToString(p.lane) /\ t.Fc = lib.hdr.fc /\ t.MX = e.strategy /\ t.aa = lib.hdr.idx
+            /\ t.RG = lib.hdr.fc \o "." \o ToString(p.lane) \o "." \o SM(i)
             /\ t.aA = lib.hdr.idx /\ t.MI = Cat(BcChars(cellOf[i])) \o Cat(p.umi) \o lib.hdr.idx
         SiteOk(t) == LET p == P[IdxOfX[t.cx]] IN
             (~t.unmapped /\ R1Mapped(IdxOfX[t.cx])) => (t.hasDS /\ t.DS = p.p /\ t.hasRS /\ t.RS = B2I(p.rev))
